@@ -27,12 +27,12 @@ PROPS = {
     "C14": {"level": "model_checking", "bounds_text": BT, "K": [K("^Harness_K8_ListOrder", "^C14/", strmax=3, splitmax=4)]},
     "C02": {"level": "model_checking", "bounds_text": BT, "G": G(["schema"], "^Harness_Schema_", "^C02/"),
             "K": [K("^Harness_K1_", "^C02/"), K("^Harness_K2_", "^C02/", strmax=4)]},
-    "C18": {"level": "model_checking", "bounds_text": BT, "K": [K("^Harness_K2_", "^C18/", strmax=4)], "O": True},
+    "C18": {"level": "model_checking", "bounds_text": BT, "K": [K("^Harness_K2_", "^C18/", strmax=4)], "O": "unsupported"},
     "C17": {"level": "model_checking", "bounds_text": BT, "K": [K("^Harness_K17_", "^C17/", strmax=4)],
             "G": G(["custom", "schema"], "^Harness_(Custom|Schema)_", "^C17/", programs="custom", gosym=["-prune=false"])},
     "C11": {"level": "translation_validation", "bounds_text": BT, "K": [K("^Harness_K4_Flags", "^C11/")],
             "V": G([], "^Harness_Diff_", "^C11/")},
-    "C12": {"level": "translation_validation", "bounds_text": BT, "V": G([], "^Harness_Diff_", "^C12/"), "K": [K("^Harness_K12_", "^C12/")]},
+    "C12": {"level": "translation_validation", "bounds_text": BT, "V": G([], "^Harness_Diff_", "^C12/"), "K": [K("^Harness_K12_", "^C12/")], "O": "selection"},
     "C13": {"level": "translation_validation", "bounds_text": BT, "V": G([], "^Harness_Diff_", "^C13/"), "K": [K("^Harness_K9_", "^C13/", strmax=5)]},
     "C15": {"level": "translation_validation", "bounds_text": BT, "V": G([], "^Harness_Diff_", "^C15/")},
     "C03": {"level": "model_checking", "bounds_text": BT, "G": G(["rt"], "^Harness_RT_", "^C03/")},
